@@ -9,7 +9,10 @@
 (*   ev    "Ols" | "Ridge"          prec  "f64" | "f32"                    *)
 (*   S     fixed-point scale        X, y  integer data (n x p, n)          *)
 (*   aN, aE, normalize              (ridge) alpha = aN / 2^aE              *)
-(*   backend "dense" | "ndarray": the matrix type the problem was given in  *)
+(*   backend "dense" | "api" | "ndarray": "api" = DenseMatrix through the   *)
+(*         trait entry points api::SupervisedEstimator::fit and             *)
+(*         api::Predictor::predict instead of the inherent methods;         *)
+(*         "ndarray" = the matrix type the problem was given in             *)
 (*         (ndarray: X column-major, y an Array1 with negative stride --    *)
 (*         logically the same data, so the same contract applies)          *)
 (*   fits  sequence of [solver, status, fin, W, B, Yhat]                   *)
@@ -71,7 +74,7 @@ HitName(e) ==
     ELSE (IF e.normalize THEN "RidgeStd_" ELSE "RidgeRaw_") \o e.prec
 
 HitNames == {"Ols_f64", "Ols_f32", "RidgeStd_f64", "RidgeStd_f32", "RidgeRaw_f64", "RidgeRaw_f32",
-             "Backend_dense", "Backend_ndarray"}                 \* second counter
+             "Backend_dense", "Backend_ndarray", "Backend_api"}                 \* second counter
 ASSUME \A i \in 1..Len(Rec) : ~(Rec[i].ev = "Ridge" /\ Rec[i].normalize /\ Rec[i].prec = "f32")
 
 Step ==
